@@ -66,6 +66,8 @@ def run_sim_history(p, ctx, mode):
     mode = "json-resume" : simulate(max_time=$k), write_simple_json, read_simple_json into a new project, observed call continues it there
     mode = "edited-resume": simulate(max_time=$k) with every personal absence list empty, then the model's own lists are put in place and
                             the observed call continues the run (both initialisation flags off)
+    mode = "edited-teams" : a complete first run with two workers of different teams exchanged, then put back
+    mode = "late-edges"   : a complete first run without any dependency; the dependencies are then added with extend_input_task_list
     mode = "edited-model" : a complete first run on an edited model (last team not yet in the organization, skill maps rotated among the
                             workers / facilities, personal absence lists [$k]); then the model's own values are put in place and the observed
                             (default, fully initialising) call follows on the same objects
@@ -89,31 +91,57 @@ def run_sim_history(p, ctx, mode):
                 w.absence_time_list = [p["k"]]
             ok1, r1 = ctx.call(M.project.simulate, **kw)
             for w, sv in zip(M.workers, saved):
-                w.absence_time_list = sv
+                w.absence_time_list[:] = sv  # edited in place: the list object stays the same
         elif mode == "edited-resume":
             res = M.workers + M.facs
-            saved = [r.absence_time_list for r in res]
+            saved = [list(r.absence_time_list) for r in res]
             for r in res:
-                r.absence_time_list = []
+                del r.absence_time_list[:]
             ok1, r1 = ctx.call(M.project.simulate, **dict(kw, max_time=p["k"]))
             for r, sv in zip(res, saved):
-                r.absence_time_list = sv
+                r.absence_time_list.extend(sv)  # edited in place: the list object stays the same
         elif mode == "edited-model":
             res = M.workers + M.facs
-            saved_abs = [r.absence_time_list for r in res]
-            saved_sk = [r.workamount_skill_mean_map for r in res]
+            saved_abs = [list(r.absence_time_list) for r in res]
+            saved_sk = [dict(r.workamount_skill_mean_map) for r in res]
             for r in res:
-                r.absence_time_list = [p["k"]]
+                r.absence_time_list[:] = [p["k"]]
             for grp in (M.workers, M.facs):
-                for i, r in enumerate(grp):
-                    r.workamount_skill_mean_map = dict(grp[(i + 1) % len(grp)].workamount_skill_mean_map)
+                rot = [dict(grp[(i + 1) % len(grp)].workamount_skill_mean_map) for i in range(len(grp))]
+                for r, m in zip(grp, rot):
+                    r.workamount_skill_mean_map.clear()
+                    r.workamount_skill_mean_map.update(m)
             late_team = M.org.team_list.pop() if len(M.org.team_list) >= 2 else None
             ok1, r1 = ctx.call(M.project.simulate, **kw)
             if late_team is not None:
                 M.org.team_list.append(late_team)
+            # the model's own values are put back by editing the same list / dict objects in place
             for r, sa, sk in zip(res, saved_abs, saved_sk):
-                r.absence_time_list = sa
-                r.workamount_skill_mean_map = sk
+                r.absence_time_list[:] = sa
+                r.workamount_skill_mean_map.clear()
+                r.workamount_skill_mean_map.update(sk)
+        elif mode == "edited-teams":
+            # a complete first run in which the first workers of the first and the last team have changed places
+            ta, tb = M.org.team_list[0], M.org.team_list[-1]
+            swap = ta is not tb and len(ta.worker_list) > 0 and len(tb.worker_list) > 0
+            if swap:
+                wa, wb = ta.worker_list[0], tb.worker_list[0]
+                ta.worker_list[0], tb.worker_list[0] = wb, wa
+                wa.team_id, wb.team_id = tb.ID, ta.ID
+            ok1, r1 = ctx.call(M.project.simulate, **kw)
+            if swap:
+                ta.worker_list[0], tb.worker_list[0] = wa, wb
+                wa.team_id, wb.team_id = ta.ID, tb.ID
+        elif mode == "late-edges":
+            # a complete first run without the dependencies, which are then added with extend_input_task_list (the bulk editing call)
+            from pDESy.model.base_task import BaseTaskDependency
+
+            for t in M.tasks:
+                del t.input_task_list[:]
+                del t.output_task_list[:]
+            ok1, r1 = ctx.call(M.project.simulate, **kw)
+            for (a, b, kd) in M.edges:
+                M.tasks[b].extend_input_task_list([M.tasks[a]], kd if ctx.symbolic else BaseTaskDependency(int(kd)))
         else:
             ok1, r1 = ctx.call(M.project.simulate, **dict(kw, max_time=p["k"]))
         if not ok1:
